@@ -576,6 +576,26 @@ async fn run(scn: Value) -> Value {
                     mockpg::log_event(&log, json!({"who": "harness", "ev": "drain_stall", "on": true, "filled": filled}));
                 }
             }
+            "contend" => {
+                // C10: keep client_server_map's mutex busy for `ms` milliseconds from a plain OS thread
+                // (held ~400 us at a time, free for a few us in between).  Code that takes the mutex with
+                // lock() is only delayed; code that would skip its access when the mutex is busy is exposed.
+                let ms = step["ms"].as_u64().unwrap_or(200);
+                let map = ctx.pooler.as_ref().unwrap().client_server_map.clone();
+                std::thread::spawn(move || {
+                    let t0 = std::time::Instant::now();
+                    while (t0.elapsed().as_millis() as u64) < ms {
+                        let g = map.lock();
+                        let h0 = std::time::Instant::now();
+                        while h0.elapsed().as_micros() < 400 {
+                            std::hint::spin_loop();
+                        }
+                        drop(g);
+                        std::hint::spin_loop();
+                    }
+                });
+                mockpg::log_event(&log, json!({"who": "harness", "ev": "contend", "ms": ms}));
+            }
             "hook" => {
                 // C10: arm/disarm pgcat::verif_hooks; `park` = accept indices (1-based, every accepted
                 // connection counts, cancel requests too) of the client tasks that stop at a point.
